@@ -174,3 +174,4 @@ def fully_signed_commitment(S, D):
     S.no_panic(ids[2], E, [], 'no panic (every non-dust HTLC has an output index)', [b])
     S.witness(ids[3], E, [n_htlc == 2, n_sig == 2], ok)
     S.validate(ids[4], E, b, n=4, extra_vectors=[(1, 1, 1), (0, 1, 1), (2, 1, 1), (1, 0, 1)])
+
